@@ -5,6 +5,7 @@ from .. import gen, install, loops
 from ..common import COSTS, DISTANCES, LINKAGES, ORDERS, RANKINGS, cost, distance, order, pick, shard_count
 
 META = {
+    'refill': True,      # cases presented in a reused buffer are followed by a refill of that buffer (runner)
     'rule': ('cases = curve (12 synthetic families + the bundled traces usr0, web0_reduced, web2) x simplifier in {rdp, grdp, '
              'rdp_fixed, mp_grdp, min_point_rdp} with random Distance/Metrics/Order/threshold/size x detector in {curvature, dfdt, '
              'menger, lmethod, kneedle} (multi_knee on the reduced curve, t1 = 10^U(-3,-1)) x corner threshold U(0,1) x linkage x '
